@@ -3,7 +3,9 @@ live tables) with `model_eq_live` checked in the kernel; (2) correspondence of t
 and ConnectionContext predicates with the Lean model on random record lists / extension histories."""
 import itertools
 
-EXTRACT = ['versions']
+EXTRACT = ['versions', 'gen.c08live']
+EXTRA_PROPS = ['C08Live']
+
 RULE = ("exhaustive: all ordered pairs of the known protocol numbers through the five real predicates "
         "(oracle) and all triples over a 40-version sample for in-range; sampled pairs/triples against the "
         "model; random record lists (duplicate protocols, repeated ids, mixed supported flags, release "
